@@ -38,12 +38,34 @@ pub struct Job {
     pub abort_before: u8,
     #[serde(default)]
     pub abort_arg: u32,
+    /// 0: the drain takes whatever it is offered; n > 0: it takes at most n bytes per write() call
+    /// (a pipe, a socket, a packetising writer) - Write::write may do that, write_all copes with it
+    #[serde(default)]
+    pub short_drain: u32,
 }
 
 /// drain of the reused compressor: memory, or one that fails after `left` more bytes
 pub enum Sink {
     Mem(Vec<u8>),
     Failing { left: usize },
+    /// takes at most `per_call` bytes per write() call
+    Short { v: Vec<u8>, per_call: usize },
+}
+
+impl Sink {
+    pub fn for_job(j: &Job) -> Sink {
+        if j.short_drain > 0 {
+            Sink::Short { v: Vec::new(), per_call: j.short_drain as usize }
+        } else {
+            Sink::Mem(Vec::new())
+        }
+    }
+    pub fn into_bytes(self) -> Vec<u8> {
+        match self {
+            Sink::Mem(v) | Sink::Short { v, .. } => v,
+            Sink::Failing { .. } => vec![],
+        }
+    }
 }
 
 impl std::io::Write for Sink {
@@ -52,6 +74,11 @@ impl std::io::Write for Sink {
             Sink::Mem(v) => {
                 v.extend_from_slice(buf);
                 Ok(buf.len())
+            }
+            Sink::Short { v, per_call } => {
+                let n = buf.len().min(*per_call);
+                v.extend_from_slice(&buf[..n]);
+                Ok(n)
             }
             Sink::Failing { left } => {
                 if *left == 0 {
@@ -148,7 +175,14 @@ pub fn job_strategy(max_len: u32) -> impl Strategy<Value = Job> {
             Chunking::Fixed(n) if n < 8 && data.len > 300_000 => Chunking::Fixed(4099),
             c => c,
         };
-        Job { data, level, chunking, abort_before: 0, abort_arg: 0 }
+        let short_drain = match data.seed % 7 {
+            1 => [1u32, 5, 7, 1400, 4096, 65_536, 131_075][(data.seed as usize >> 8) % 7],
+            2 => 1 + (data.seed >> 8) % 70_000,
+            _ => 0,
+        };
+        // (byte-wise drains on big inputs: one call per byte is slow and adds nothing)
+        let short_drain = if short_drain > 0 && short_drain < 64 && data.len > 300_000 { 1400 } else { short_drain };
+        Job { data, level, chunking, abort_before: 0, abort_arg: 0, short_drain }
     })
 }
 
@@ -201,12 +235,9 @@ pub fn compress_history(case: &Case) -> Vec<(Vec<u8>, Vec<u8>)> {
             } else {
                 comp.source_mut().unwrap().set_limit(n);
             }
-            comp.set_drain(Sink::Mem(Vec::new()));
+            comp.set_drain(Sink::for_job(j));
             comp.compress();
-            let frame = match comp.take_drain() {
-                Some(Sink::Mem(v)) => v,
-                _ => vec![],
-            };
+            let frame = comp.take_drain().map(Sink::into_bytes).unwrap_or_default();
             out.push((data[from..to].to_vec(), frame));
             from = to;
         }
@@ -230,12 +261,9 @@ pub fn compress_history(case: &Case) -> Vec<(Vec<u8>, Vec<u8>)> {
         }
         comp.set_compression_level(level_of(j.level));
         comp.set_source(FragReader { data: data.clone(), pos: 0, chunking: j.chunking.clone(), calls: 0, fail_at: None });
-        comp.set_drain(Sink::Mem(Vec::new()));
+        comp.set_drain(Sink::for_job(j));
         comp.compress();
-        let frame = match comp.take_drain() {
-            Some(Sink::Mem(v)) => v,
-            _ => vec![],
-        };
+        let frame = comp.take_drain().map(Sink::into_bytes).unwrap_or_default();
         out.push((data, frame));
     }
     out
@@ -332,6 +360,7 @@ pub fn check(case: &Case, ctx: &mut CaseCtx) -> CaseResult {
         parts.push(frame_bytes);
     }
     ctx.feat_if(case.oneshot, "enc:oneshot_api");
+    ctx.feat_if(!case.oneshot && case.jobs.iter().any(|j| j.short_drain > 0), "enc:drain_takes_part_of_a_write_only");
     ctx.feat_if(!case.stream_cuts.is_empty(), "enc:one_source_cut_into_frames_by_take_limits");
     ctx.weight = results.len() as u64;
     ctx.nontrivial = nontrivial;
